@@ -121,4 +121,10 @@ CHECKS = {
                 explanation="every format string over {'{','}','a'} up to the bound x argument counts 0..k+1 x argument texts containing braces and "
                             "placeholders x both supply paths x three read paths; typed arguments/manipulators; exception messages alone and "
                             "after every pair of earlier exceptions"),
+    "C16": dict(src=["checks/C16.cpp"], nitro=[], variants=PLAIN_ASAN, runs=both, deadline_s={"quick": 300, "thorough": 900},
+                assumptions=["NaN members are excluded (equality is not reflexive there)",
+                             "'rare collisions' is judged on the exhaustive grid as: not all pairs differing in one member collide, and at most 5 % do",
+                             "grids are small (3-5 values per member); nothing is said about the hash's distribution beyond them"],
+                explanation="exhaustive grids of member tuples; all ordered pairs, all triples, all in-place member changes after hashing; hash "
+                            "containers keyed by the types"),
 }
